@@ -1,5 +1,5 @@
 (* Entry points used by the correspondence check (checks/c13.py). *)
-Require Import KV.Codec13.Model KV.Codec13.Spec KV.Codec13.Classes.
+Require Import KV.Codec13.Model KV.Codec13.Spec KV.Codec13.Classes KV.Codec13.Inv.
 
 Inductive op :=
 | OAdd (s p o : str) (g : option str) (obs : bool)
@@ -42,7 +42,7 @@ Definition apply_op (x : db) (o : op) : db * out :=
       let lines := render_doc doc in
       let x' := load_fmt f lines x in
       (x', (if obs then Some (den x') else None, Some (triples_of doc), checksum lines,
-            [known_C13_n3 doc x; known_C13_reclean doc; known_C13_n3_literal doc; known_C13_ttl_tagged doc]))
+            [known_C13_n3 doc x; known_C13_reclean doc; known_C13_n3_literal doc; known_C13_ttl_tagged doc; known_C13_n3_hash doc]))
   end.
 
 Fixpoint run_ops (x : db) (ops : list op) : list out :=
@@ -59,7 +59,7 @@ Definition qhash (q : lquad) : N :=
   let '(s, p, o, g) := q in
   let a := hcomp (hcomp (hcomp 17 s) p) o in
   match g with None => hmix a 7 | Some x => hcomp (hmix a 8) x end.
-Definition squad_l (q : squad) : lquad := let '(s, p, o, g) := q in (Some s, Some p, Some o, option_map Some g).
+Definition squad_l (q : squad) : lquad := lq_of4 q.
 
 Definition out_h := (option (list N) * option (list N) * N * list bool)%type.
 Definition hash_out (o : out) : out_h :=
